@@ -74,8 +74,12 @@ def _iter_chunked(read, buff_size):
             if not part:
                 raise parsing_err
             yield part
-            rest_len -= part_size
-        if read(2) != rn:
+            # the stream may return less than requested (short read)
+            rest_len -= len(part)
+        crlf = read(2)
+        if len(crlf) == 1:
+            crlf += read(1)
+        if crlf != rn:
             raise parsing_err
 
 
